@@ -81,6 +81,24 @@ def base_programs():
                       pipeline("TOP", "int x", "int r, int s",
                                [call("ONE", binds={"x": self_("x")}), call("TWO", binds={"x": self_("x")})],
                                {"r": ref("ONE", "y"), "s": ref("TWO", "y")})], "TOP", {"x": 1}))
+    # the top-level pipeline has an input and an output of the same name
+    P.append(program("ref_io_names", [],
+                     [stage("S", "int v", "int w", {"w": const(81)})],
+                     [pipeline("TOP", "int foo, int other", "int foo, int w2",
+                               [call("S", binds={"v": self_("foo")}), call("S2", "S", binds={"v": self_("other")})],
+                               {"foo": ref("S", "w"), "w2": ref("S2", "w")})], "TOP", {"foo": 1, "other": 2}))
+    # the top-level pipeline calls a pipeline and uses none of its outputs; that pipeline uses the
+    # outputs of a pipeline below it for a stage of its own (which retains a file: it has an effect)
+    P.append(program("ref_unreferenced_mid", [],
+                     [stage("A", "int x", "int y, int z", {"y": const(91), "z": const(92)}),
+                      stage("KEEP", "int v", "file f", {"f": mro.FILE}, retain=["f"])],
+                     [pipeline("SUB", "int x", "int y, int z", [call("A", binds={"x": self_("x")})], {"y": ref("A", "y"), "z": ref("A", "z")}),
+                      pipeline("MID", "int x", "int n",
+                               [call("SUB", binds={"x": self_("x")}), call("KEEP", binds={"v": ref("SUB", "y")})],
+                               {"n": ref("SUB", "z")}),
+                      pipeline("TOP", "int x", "int r",
+                               [call("MID", binds={"x": self_("x")}), call("A", binds={"x": self_("x")})],
+                               {"r": ref("A", "y")})], "TOP", {"x": 1}))
     # retain lists: a pipeline that retains several outputs of the same call (and one of an aliased
     # call of the same stage), a stage that retains one of its own outputs
     P.append(program("ref_retain", [],
